@@ -113,6 +113,14 @@ CLAIMS = {
         "Grammar variables are bound and command words unbound in the parse context; un-tokenisable means tokenize(tolerant=False) raises; small-scope hypothesis on layout deviations; root-cause keys come from repair transforms and the first tree-changing gap edit.",
         "DESIGN.md §3 C17",
     ),
+    "C08": (
+        "model_checking",
+        "explicit-state BFS over real file-system / $PATH / cwd event histories; every lookup view compared with a POSIX search cross-checked against sh and shutil.which",
+        "seqx",
+        "Breadth-first search (depth 3 quick; depths 4/3/5 on three alphabets thorough) over create / delete / chmod / symlink / $PATH-edit / cd events on a real tree in a capability-dropped process with directory mtimes from a logical clock; on every state locate_executable, CommandsCache.locate_binary, `name in cache`, iteration of the cache and SubprocSpec.build(...).binary_loc are compared (by inode and PATH index) for bare and explicit names with a 15-line POSIX search that is itself cross-checked per state against shutil.which and /bin/sh (command -v + a real spawn).",
+        "Directory mtimes advance by 1 s per create/delete and chmod leaves them alone (real FS behaviour above its timestamp granularity); states on which the three references disagree are skipped and counted; alias table empty; READ_DIR_ONCE directories and Windows PATHEXT out of scope.",
+        "DESIGN.md §3 C08",
+    ),
 }
 
 NOT_YET = "check not built yet (work in progress in this round; see DESIGN.md §3 for the planned exploration)"
@@ -120,7 +128,7 @@ NOT_YET = "check not built yet (work in progress in this round; see DESIGN.md §
 ENGINES = [
     {"name": "crashx", "path": "xv/crashx.py", "serves_properties": ["C13"], "kind_free_text": "records the file-operation log of a write history through shims bound into the module under test, then enumerates every crash point, torn write and failing call in forked children; strace syscall injection for libsqlite3"},
     {"name": "pysched", "path": "xv/pysched.py", "serves_properties": ["C06", "C11", "C12"], "kind_free_text": "stateless preemption-bounded exploration of real CPython threads: baton scheduler, line-event scheduling points in named functions, cooperative Lock/Condition/sleep/join shims, DFS over choice prefixes with replay-divergence detection"},
-    {"name": "seqx", "path": "xv/seqx.py", "serves_properties": ["C10", "C11", "C12", "C16", "C20"], "kind_free_text": "explicit-state breadth-first search whose transitions call the real entry points on a freshly replayed implementation; canonical state hashing; lock-step reference"},
+    {"name": "seqx", "path": "xv/seqx.py", "serves_properties": ["C08", "C10", "C11", "C12", "C16", "C20"], "kind_free_text": "explicit-state breadth-first search whose transitions call the real entry points on a freshly replayed implementation; canonical state hashing; lock-step reference"},
     {"name": "gramx", "path": "xv/", "serves_properties": ["C04", "C05", "C07", "C14", "C15", "C17"], "kind_free_text": "bounded-exhaustive enumeration of structured inputs run through the real implementation, compared with a reference"},
 ]
 
